@@ -206,14 +206,19 @@ pub fn cases(rng: &mut StdRng, n: usize, out: &mut Vec<Value>) {
         frac[k] = rng.gen_range(1..10);
       }
     }
-    let text = if has_dot { format!("{}.{}", dstr(&int), dstr(&frac)) } else { dstr(&int) };
+    // a sign in front of the integer part or of the fraction digits
+    let plus_int = rng.gen_bool(0.06) && !int.is_empty();
+    let plus_frac = rng.gen_bool(0.06) && has_dot && !frac.is_empty();
+    let si = if plus_int { "+" } else { "" };
+    let sf = if plus_frac { "+" } else { "" };
+    let text = if has_dot { format!("{si}{}.{sf}{}", dstr(&int), dstr(&frac)) } else { format!("{si}{}", dstr(&int)) };
     let tt = text.clone();
     let res = match catch(move || ord::decimal::Decimal::from_str(&tt)) {
       Ok(Ok(d)) => json!({"st": "ok", "value": limbs(d.value), "scale": d.scale}),
       Ok(Err(_)) => json!({"st": "err", "value": [], "scale": 0}),
       Err(p) => json!({"st": "panic", "value": [], "scale": 0, "text": p}),
     };
-    out.push(json!({"f": "parse", "g": "decimal", "text": text, "int": int, "hasDot": has_dot, "frac": frac, "res": res}));
+    out.push(json!({"f": "parse", "g": "decimal", "text": text, "int": int, "hasDot": has_dot, "frac": frac, "plusInt": plus_int, "plusFrac": plus_frac, "res": res}));
 
     // ---- inscription id / satpoint
     let hexok = rng.gen_bool(0.85);
